@@ -180,6 +180,8 @@ where
         let authentication_adapter = self.authentication_adapter.clone();
         let localization_adapter = self.localization_adapter.clone();
         let auth_secret = self.auth_secret.clone();
+        let max_packet_length = self.max_packet_length;
+        let auth_cookie_expiry = self.auth_cookie_expiry;
 
         // create a new connection and run protocol
         self.tracker.spawn(async move {
@@ -194,7 +196,9 @@ where
                 localization_adapter,
             )
             .with_client_address(client_addr)
-            .with_auth_secret(auth_secret);
+            .with_auth_secret(auth_secret)
+            .with_max_packet_length(max_packet_length)
+            .with_auth_cookie_expiry(auth_cookie_expiry);
 
             // handle the client connection (ignore connection closed by the client)
             let timeout = timeout(connection_timeout, connection.listen()).await;
